@@ -815,6 +815,14 @@ theorem upper_bound_exact (p k : Key) (hk : Bytes k) :
     upperBoundLoop p = upperBound p ∧ (inPrefixRange p k = true ↔ p <+: k) :=
   ⟨upperBoundLoop_eq p, inPrefixRange_iff p k hk⟩
 
+/-- … stated as the helper's doc comment puts it ("the next possible prefix after the given prefix
+bytes"): when `UpperBound p` exists it is above every byte string that starts with `p`, and it is the
+LEAST such byte string. -/
+theorem upper_bound_least (p u : Key) (hp : Bytes p) (hu : upperBound p = some u) :
+    (∀ k, Bytes k → p <+: k → bytesLt k u = true) ∧
+    (∀ v, Bytes v → (∀ k, Bytes k → p <+: k → bytesLt k v = true) → bytesLt v u = false) :=
+  upperBound_least p u hp hu
+
 /-- A PREFIX RANGE DELETE AND A PREFIX-BOUNDED SCAN TOUCH EXACTLY THE KEYS WITH THE PREFIX, on any store:
 `DeleteRange(p, UpperBound(p))` leaves exactly the entries whose key does not start with `p`, and
 `NewIterator(p, true)` yields exactly the entries whose key starts with `p`. -/
@@ -1246,6 +1254,10 @@ example : (run legacyBackend (Node.init legacyBackend) sysRevertHistory).map
 example : upperBound [1, 2, 255] = some [1, 3] ∧ upperBound [1, 255, 255] = some [2] ∧ upperBound [1] = some [2] ∧
     upperBound [255, 255] = none ∧ upperBound [] = none ∧ upperBoundLoop [1, 2, 255] = some [1, 3] ∧
     upperBoundLoop [7, 255, 255, 255] = some [8] ∧ upperBoundLoop [255] = none := by decide
+
+/-- hypotheses of `upper_bound_least` for the prefix [1,2,0xff] and its bound [1,3] -/
+example : Bytes [1, 2, 255] ∧ upperBound [1, 2, 255] = some [1, 3] :=
+  ⟨by intro b hb; simp only [List.mem_cons, List.not_mem_nil, or_false] at hb; omega, by decide⟩
 
 example : Bytes [1, 2, 255, 0] ∧ inPrefixRange [1, 2, 255] [1, 2, 255, 0] = true ∧ inPrefixRange [255, 255] [255, 255, 9] = true ∧
     inPrefixRange [255, 255] [255, 254, 255] = false := by
